@@ -179,7 +179,18 @@ func execPB(in In, em *Emitter) {
 		case "Rewind":
 			rpos = 0
 		case "Marshal":
-			kind, hasver, ver, payload := op.S("kind"), op.Bool("hasver"), op.Str("ver"), op.Bs("payload")
+			var kind, ver string
+			var hasver bool
+			var payload []byte
+			if op.has("plen") { // TLC-generated behaviour: version as a string, payload given by its length
+				kind, hasver, ver = op.S("kind"), op.Bool("hasver"), op.S("vers")
+				payload = make([]byte, op.Int("plen"))
+				for i := range payload {
+					payload[i] = byte(i*31 + len(wire) + 7)
+				}
+			} else {
+				kind, hasver, ver, payload = op.S("kind"), op.Bool("hasver"), op.Str("ver"), op.Bs("payload")
+			}
 			msg := mkMsg(kind, hasver, ver, payload)
 			enc, err := proto.Marshal(msg)
 			if err != nil {
